@@ -25,8 +25,7 @@ def to_smt2(pc, goal) -> str:
     return s.to_smt2()
 
 
-def _run_z3(args):
-    text, timeout_ms = args
+def _z3_once(text, timeout_ms):
     t0 = time.time()
     try:
         s = z3.Solver()
@@ -49,6 +48,24 @@ def _run_z3(args):
         return "error", repr(e)[:500], time.time() - t0
 
 
+def _run_z3(args):
+    """portfolio inside one worker: z3 with a short budget, then cvc5, then z3 with the full budget.
+    -> (verdict, info, seconds, backend)"""
+    text, timeout_ms = args
+    r, info, secs = _z3_once(text, min(3000, timeout_ms))
+    if r in ("unsat", "sat"):
+        return r, info, secs, "z3"
+    r2, info2, secs2 = run_cvc5(text, max(1, timeout_ms // 1000))
+    if r2 == "unsat":
+        return "unsat", "", secs + secs2, "cvc5"
+    r3, info3, secs3 = _z3_once(text, timeout_ms)
+    if r3 in ("unsat", "sat"):
+        return r3, info3, secs + secs2 + secs3, "z3"
+    if r2 == "sat":
+        return "sat", "(cvc5 model not extracted)", secs + secs2 + secs3, "cvc5"
+    return "unknown", f"z3: {r3} {info3}; cvc5: {r2} {info2}", secs + secs2 + secs3, "z3+cvc5"
+
+
 def run_cvc5(text: str, timeout_s: int):
     t0 = time.time()
     with tempfile.NamedTemporaryFile("w", suffix=".smt2", delete=False) as f:
@@ -60,7 +77,7 @@ def run_cvc5(text: str, timeout_s: int):
         out = (p.stdout or "").strip().splitlines()
         r = out[0] if out else "error"
         if r not in ("sat", "unsat", "unknown"):
-            r = "error"
+            return "error", ((p.stdout or "") + (p.stderr or ""))[:300], time.time() - t0
         return r, (p.stderr or "")[:300], time.time() - t0
     except subprocess.TimeoutExpired:
         return "unknown", "cvc5 timeout", time.time() - t0
@@ -80,40 +97,44 @@ def pool():
 
 def discharge(vcs, timeout_ms: int = 10000, both: bool = False):
     """sets vc.status in {discharged, refuted, unknown}, vc.model, vc.seconds, vc.backend"""
-    texts = []
-    trivial = []
+    def conjuncts(g):
+        if z3.is_and(g):
+            out = []
+            for c in g.children():
+                out.extend(conjuncts(c))
+            return out
+        return [g]
+
+    parts = []          # per vc: list of smt2 texts (one query per top-level conjunct of the goal: small queries are stable ones)
     for vc in vcs:
         g = z3.simplify(vc.goal) if z3.is_expr(vc.goal) else z3.BoolVal(bool(vc.goal))
         vc.goal = g
         if z3.is_true(g):
             vc.status, vc.backend, vc.seconds = "discharged", "z3-simplify", 0.0
-            trivial.append(True)
-            texts.append(None)
+            parts.append(None)
         else:
-            trivial.append(False)
-            texts.append(to_smt2(vc.pc, g))
-    jobs = [(t, timeout_ms) for t in texts if t is not None]
-    results = pool().map(_run_z3, jobs, chunksize=4) if jobs else []
+            parts.append([to_smt2(vc.pc, c) for c in conjuncts(g) if not z3.is_true(c)])
+    jobs = [(t, timeout_ms) for ts in parts if ts is not None for t in ts]
+    results = pool().map(_run_z3, jobs, chunksize=2) if jobs else []
     it = iter(results)
+    for vc, ts in zip(vcs, parts):
+        if ts is None:
+            continue
+        rs = [next(it) for _ in ts]
+        vc.seconds = sum(r[2] for r in rs)
+        vc.backend = "+".join(sorted({r[3] for r in rs}))
+        sat = [r for r in rs if r[0] == "sat"]
+        unk = [r for r in rs if r[0] not in ("sat", "unsat")]
+        if sat:
+            vc.status, vc.model = "refuted", sat[0][1]
+        elif unk:
+            vc.status, vc.model = "unknown", unk[0][1]
+        else:
+            vc.status = "discharged"
+    texts = [ts[0] if ts else None for ts in parts]
     for vc, t in zip(vcs, texts):
         if t is None:
             continue
-        r, info, secs = next(it)
-        vc.seconds = secs
-        vc.backend = "z3"
-        if r == "unsat":
-            vc.status = "discharged"
-        elif r == "sat":
-            vc.status, vc.model = "refuted", info
-        else:
-            r2, info2, secs2 = run_cvc5(t, max(1, timeout_ms // 1000))
-            vc.seconds += secs2
-            if r2 == "unsat":
-                vc.status, vc.backend = "discharged", "cvc5"
-            elif r2 == "sat":
-                vc.status, vc.backend, vc.model = "refuted", "cvc5", "(cvc5 model not extracted)"
-            else:
-                vc.status, vc.model = "unknown", f"z3: {r} {info}; cvc5: {r2} {info2}"
         if both and vc.status == "discharged" and vc.backend == "z3":
             r2, info2, secs2 = run_cvc5(t, max(1, timeout_ms // 1000))
             if r2 == "sat":
